@@ -146,6 +146,7 @@ class Env:
         self.bsleep_exc: BaseException | None = None
         self.ninv = 0
         self.hook_calls = {"metric": 0, "log": 0, "bsleep": 0}
+        self.raw_sleeps: list[float] = []
         self.site_fault: dict | None = None
         self.site_calls: dict[str, int] = {}
         self.call_index = 0
@@ -365,6 +366,7 @@ class Env:
         self.clock.advance(max(0, ticks(s)))
 
     def _sleep_common(self, s: float) -> None:
+        self.raw_sleeps.append(s)
         self._fault("sleeper")
         sc = self._next("sleep")
         adv = sc["adv"] if sc else "exact"
